@@ -27,7 +27,16 @@ class Chooser:
     Replays `prefix`, then answers 0 (the default) at every later point, recording
     (n, label) per point so the explorer can branch afterwards."""
 
-    def __init__(self, prefix: Iterable[int] = (), labels: Optional[list[str]] = None, max_points: int = 100000):
+    POLICIES = {
+        "zero": lambda n, i: 0,            # first alternative / minimal repetition / "nothing special"
+        "last": lambda n, i: n - 1,        # last alternative / maximal repetition
+        "rot": lambda n, i: i % n,         # rotating: a varied but fixed base execution
+    }
+
+    def __init__(self, prefix: Iterable[int] = (), labels: Optional[list[str]] = None, max_points: int = 100000,
+                 policy: str = "zero"):
+        self.policy = self.POLICIES[policy]
+        self.defaults: list[int] = []
         self.prefix = list(prefix)
         self.expect_labels = labels
         self.points: list[tuple[int, str]] = []  # (fan-out, label)
@@ -47,13 +56,14 @@ class Chooser:
             if self.expect_labels is not None and i < len(self.expect_labels) and self.expect_labels[i] != label:
                 raise ReplayDivergence(f"point {i}: label {label!r} != recorded {self.expect_labels[i]!r}")
         else:
-            c = 0
+            c = self.policy(n, i)
+        self.defaults.append(self.policy(n, i))
         self.points.append((n, label))
         self.choices.append(c)
         return c
 
     def deviations(self) -> int:
-        return sum(1 for c in self.choices if c != 0)
+        return sum(1 for c, d in zip(self.choices, self.defaults) if c != d)
 
 
 class Horizon(Exception):
